@@ -386,34 +386,51 @@ func c12Prop(k *verifkit.Kit) func(c c12Case) error {
 		if gotS := c12Multiset(counted, drop); gotS != wantS {
 			return verifkit.Violf("C12/counter/"+c12Diff(wantS, gotS), "inconsistencies_total: want {%s} got {%s}", wantS, gotS)
 		}
-		nlog := strings.Count(logs.String(), "inconsistency ")
+		// "logged ... once": every inconsistency has a log line of its own that names its field and, where there is one,
+		// the prefix or route concerned - and no other line names a field.  (The field names are the label values of
+		// the counter; how the line is worded around them is the code's business.)
+		var problemLines []string
+		for _, line := range strings.Split(logs.String(), "\n") {
+			for _, f := range c12FieldNames {
+				if strings.Contains(line, f) {
+					problemLines = append(problemLines, line)
+					break
+				}
+			}
+		}
 		dropped := 0
 		for _, l := range counted {
 			if drop[l.Field] {
 				dropped++
 			}
 		}
-		if !dupTheirs && nlog-dropped != len(strings.Fields(wantS)) {
-			return verifkit.Violf("C12/log-lines", "want %d 'inconsistency N:' log lines, got %d:\n%s", len(strings.Fields(wantS)), nlog-dropped, logs.String())
+		if !dupTheirs && len(problemLines)-dropped != len(strings.Fields(wantS)) {
+			return verifkit.Violf("C12/log-lines", "want %d log lines that name an inconsistency, got %d:\n%s", len(strings.Fields(wantS)), len(problemLines)-dropped, logs.String())
 		}
-		// ... and each line names the field and the details (the prefix or route concerned) of its own
-		// problem: `inconsistency N: "field": (details) want ...`
-		var logged []c12Label
-		for _, line := range strings.Split(logs.String(), "\n") {
-			_, rest, ok := strings.Cut(line, ": inconsistency ")
-			if !ok {
+		used := make([]bool, len(problemLines))
+		for _, l := range want {
+			if drop[l.Field] {
 				continue
 			}
-			_, rest, _ = strings.Cut(rest, ": \"")
-			field, rest, _ := strings.Cut(rest, "\": ")
-			l := c12Label{Field: field}
-			if strings.HasPrefix(rest, "(") {
-				l.Details, _, _ = strings.Cut(rest[1:], ") ")
+			found := false
+			for li, line := range problemLines {
+				// (the longest field name that occurs in the line is the one it is about: "rdnss_lifetime" is not "lifetime")
+				if used[li] || !strings.Contains(line, l.Field) || (l.Details != "" && !strings.Contains(line, l.Details)) {
+					continue
+				}
+				longer := false
+				for _, f := range c12FieldNames {
+					longer = longer || (len(f) > len(l.Field) && strings.Contains(f, l.Field) && strings.Contains(line, f))
+				}
+				if longer {
+					continue
+				}
+				used[li], found = true, true
+				break
 			}
-			logged = append(logged, l)
-		}
-		if gotS := c12Multiset(logged, drop); gotS != wantS {
-			return verifkit.Violf("C12/log-line-content/"+c12Diff(wantS, gotS), "log lines name {%s}, the inconsistencies are {%s}:\n%s", gotS, wantS, logs.String())
+			if !found && !dupTheirs {
+				return verifkit.Violf("C12/log-line-content/missed:"+l.Field, "no log line of its own names the inconsistency %s(%s):\n%s", l.Field, l.Details, logs.String())
+			}
 		}
 		if len(unspec) == 0 {
 			if (hooks > 0) != (len(want) > 0) || hooks > 1 {
@@ -436,6 +453,11 @@ func c12Prop(k *verifkit.Kit) func(c c12Case) error {
 		return nil
 	}
 }
+
+// c12FieldNames: the label values of corerad_advertiser_inconsistencies_total.
+var c12FieldNames = []string{"hop_limit", "managed_configuration", "other_configuration", "reachable_time", "retransmit_timer", "mtu",
+	"prefix_information_preferred_lifetime", "prefix_information_valid_lifetime", "route_information_lifetime", "rdnss_count", "rdnss_lifetime", "rdnss_servers",
+	"dnssl_count", "dnssl_lifetime", "dnssl_domain_names", "captive_portal"}
 
 func raStr(ra *ndp.RouterAdvertisement) string {
 	if ra == nil {
